@@ -86,7 +86,7 @@ CLAIMED = {
         "scalar operands, pow, square, sqrt, strict sum, tf mean/variance/std, square matmul, fix_nan), every shape, every mask, every scalar type and every interpretation of the arithmetic (no law assumed: holds with NaN/±inf), "
         "the pair interpreter (operations applied to value tensor and mask separately, as the Python classes do) equals the reference interpreter on ONE tensor of (value, valid) pairs, keeps shapes identical and fails exactly when the reference fails; "
         "structural operations are one polymorphic pick (pick_zip); elementwise / strict-sum / mean validity rules and exact zero-fill as corollaries. Non-square matmul is excluded and proved misaligned on a witness (known finding K1). "
-        "Random programs are executed on the real torch and tensorflow classes and compared step by step with the model.",
+        "Random programs (masked and plain operands) are executed on the real torch and tensorflow classes and compared step by step with the model; afterwards every register is dumped again: no operation may have changed an earlier value.",
    technique="Lean 4 proof (refinement between two interpreters, induction over programs, parametric in the scalar type) + differential correspondence on random programs, both frameworks",
    design="§5 C10"),
  "C11": dict(
@@ -142,7 +142,7 @@ CLAIMED = {
    text="Theorems (Props/C16.lean): frame selection returns exactly frames ixs[0], ixs[1], … (select_exact); stepping by k ≥ 1 returns frames 0, k, 2k, … all below the frame count and fps / k (step_exact); for EVERY draw the generic dropout's kept list "
         "is strictly increasing, within range, the exact complement of the draw (dropout_kept), of length n − k (dropout_length), drops nothing at fraction 0, drops ⌊n·p⌋ frames i.e. within one frame of n·p (dropout_count), and keeps ≥ 1 frame because the cap "
         "int(0.99 n) < n (dropout_keeps_one); the TensorFlow variant (sort of the first m of any shuffle) is strictly increasing, in range, of length min m n and non-empty (tf_dropout_kept, tf_dropout_keeps_one). All variants incl. the uniform / normal "
-        "wrappers are run on NumPy, torch and tensorflow bodies over many seeds and compared with fancy-indexing by the returned indexes and with the model.",
+        "wrappers and frame selections (incl. the empty request, all frames, reversed) are run on NumPy, torch and tensorflow bodies over many seeds and compared with fancy-indexing by the returned indexes and with the model.",
    technique="Lean 4 proof (for every draw: list combinatorics, sortedness of mergeSort) + differential run over seeds on three backends",
    design="§5 C16"),
  "C17": dict(
@@ -161,8 +161,8 @@ CLAIMED = {
  "C18": dict(
    text="Theorem (Props/C18.lean): for the cache protocol with atomic lookup+copy and update sections (the code's locked regions), ANY number of threads and ANY schedule, a finished thread holds exactly the "
         "decode of its own file (reads_isolated, by the invariant 'the cache is empty or a consistent snapshot of one file's header'), plus progress; the protocol with a separate compare and fetch is proved to violate "
-        "isolation on a concrete 4-step schedule. The real Pose.read runs in real threads under a deterministic line-level scheduler (sys.settrace, cooperative locks): all single-preemption and (sampled / exhaustive) "
-        "double-preemption schedules over file pairs × sources × initial cache; each thread's result is compared with its single-threaded result and with the protocol model run on the observed order of cache sections. "
+        "isolation on a concrete 4-step schedule. The real Pose.read runs in real threads under a deterministic line-level scheduler (sys.settrace, cooperative locks): all single-preemption schedules, every double-preemption schedule whose two points lie inside the cache code and a sample of the others, "
+        "over file pairs × sources × initial cache; each thread's result is compared with its single-threaded result and with the protocol model run on the observed order of cache sections. "
         "Partial: preemption inside a source line / C extension is not explored.",
    technique="Lean 4 proof (invariant over arbitrary schedules of a small-step protocol model) + systematic schedule exploration of the real code with a preemption bound",
    design="§5 C18"),
